@@ -219,6 +219,11 @@ func genesisHistory(s *Stream, rng *rand.Rand, steps int, seen, sigs map[string]
 				g.did.deactivate(&didtypes.MsgDeactivateDIDRequest{Did: it.did, VerificationMethodId: vmID, Signature: dsig, FromAddress: relayers[1]})
 			}
 		}
+		// (denom, token) pairs that read the same when joined with a separator
+		for _, pr := range [][2]string{{"hospital/seoul", "xray-1"}, {"hospital", "seoul/xray-1"}, {"a:b", "c"}, {"a", "b:c"}, {"x y", "z"}, {"x", "y z"}} {
+			g.pnft.msg(&pnfttypes.MsgCreateDenomRequest{Id: pr[0], Name: "n", Symbol: "s", Creator: pa[0]})
+			g.pnft.msg(&pnfttypes.MsgMintPNFTRequest{DenomId: pr[0], Id: pr[1], Name: "t", Creator: pa[0]})
+		}
 		// more than a hundred denoms, the late ones with tokens and a hand-over
 		for i := 0; i < 104; i++ {
 			id := fmt.Sprintf("bulk%03d", i)
@@ -227,6 +232,9 @@ func genesisHistory(s *Stream, rng *rand.Rand, steps int, seen, sigs map[string]
 				g.pnft.msg(&pnfttypes.MsgMintPNFTRequest{DenomId: id, Id: "t1", Name: "t", Creator: pa[0]})
 			}
 		}
+		// texts that an "is it blank" rule or a trimmer would treat differently on the two write paths
+		g.pnft.msg(&pnfttypes.MsgUpdateDenomRequest{Id: "bulk100", Name: " a padded name ", Symbol: " s2", Updater: pa[0]})
+		g.pnft.msg(&pnfttypes.MsgUpdateDenomRequest{Id: "bulk101", Name: "  ", Symbol: "\t", Description: " ", Updater: pa[0]})
 		g.pnft.msg(&pnfttypes.MsgTransferPNFTRequest{DenomId: "bulk102", Id: "t1", Sender: pa[0], Receiver: pa[1]})
 		g.pnft.msg(&pnfttypes.MsgTransferDenomRequest{Id: "bulk103", Sender: pa[0], Receiver: pa[2]})
 		g.roundTrip(ns)
